@@ -816,8 +816,17 @@ func main() {
 	batchSz := flag.Int("batch", 60, "cases per worker process")
 	budgetS := flag.Int("budget-s", 0, "overall time budget of the parent in seconds (0 = none): batches not started by then are skipped")
 	qpContract := flag.Bool("qpcontract", false, "print the report on strconv.QuotedPrefix over the label-document rows of --seed (one JSON line) and exit")
+	fastFillMode := flag.Bool("fastfill", false, "run the fastFill trials through the real FixPeriodPlanner (one JSON line each) and exit")
 	fl := hx.ParseFlags()
 	deadline := time.Duration(*deadlineMs) * time.Millisecond
+	if *fastFillMode {
+		out := hx.OpenOut(fl.Out)
+		for _, t := range fastFillTrials(fl.N) {
+			out.Put(t)
+		}
+		out.Close()
+		return
+	}
 	if *qpContract {
 		out := hx.OpenOut(fl.Out)
 		out.Put(qpContractReport(fl.Seed, fl.N))
